@@ -130,3 +130,125 @@ func MatMul(r, k, c int, a, b []uint16) []uint16 {
 	}
 	return out
 }
+
+var (
+	fexp [2 * 65535]uint16
+	flog [65536]int32
+)
+
+func init() {
+	// find a primitive element by bit-serial arithmetic, then build log/exp tables of our own
+	g := uint16(2)
+	for ; ; g++ {
+		x := uint16(1)
+		ord := 0
+		for {
+			x = Mul(x, g)
+			ord++
+			if x == 1 {
+				break
+			}
+		}
+		if ord == 65535 {
+			break
+		}
+	}
+	x := uint16(1)
+	for i := 0; i < 65535; i++ {
+		fexp[i] = x
+		fexp[i+65535] = x
+		flog[x] = int32(i)
+		x = Mul(x, g)
+	}
+	for _, a := range []uint16{1, 2, 3, 0x8000, 0xffff, 0x1234, 0x100b} {
+		for _, b := range []uint16{1, 2, 0xfffe, 0x4321, 0x8001} {
+			if FMul(a, b) != Mul(a, b) {
+				panic("gf16: fast table disagrees with bit-serial product")
+			}
+		}
+	}
+}
+
+// FMul is a table-driven product (tables built from the bit-serial Mul above).
+func FMul(a, b uint16) uint16 {
+	if a == 0 || b == 0 {
+		return 0
+	}
+	return fexp[flog[a]+flog[b]]
+}
+
+// FInv is the table-driven inverse (a != 0).
+func FInv(a uint16) uint16 { return fexp[(65535-flog[a])%65535] }
+
+// FPow is the table-driven power.
+func FPow(a uint16, p uint64) uint16 {
+	if p == 0 {
+		return 1
+	}
+	if a == 0 {
+		return 0
+	}
+	return fexp[(uint64(flog[a])*(p%65535))%65535]
+}
+
+// FRank is Rank with the fast product; it also reports how many pivot
+// positions needed a row swap when eliminating a square matrix top-down.
+func FRank(rows, cols int, m []uint16) (rank, swaps int) {
+	a := make([]uint16, len(m))
+	copy(a, m)
+	for col := 0; col < cols && rank < rows; col++ {
+		p := -1
+		for r := rank; r < rows; r++ {
+			if a[r*cols+col] != 0 {
+				p = r
+				break
+			}
+		}
+		if p < 0 {
+			continue
+		}
+		if p != rank {
+			swaps++
+			for k := 0; k < cols; k++ {
+				a[p*cols+k], a[rank*cols+k] = a[rank*cols+k], a[p*cols+k]
+			}
+		}
+		inv := FInv(a[rank*cols+col])
+		for k := col; k < cols; k++ {
+			a[rank*cols+k] = FMul(a[rank*cols+k], inv)
+		}
+		for r := rank + 1; r < rows; r++ {
+			f := a[r*cols+col]
+			if f == 0 {
+				continue
+			}
+			for k := col; k < cols; k++ {
+				a[r*cols+k] ^= FMul(f, a[rank*cols+k])
+			}
+		}
+		rank++
+	}
+	return
+}
+
+// FMatMul is MatMul with the fast product.
+func FMatMul(r, k, c int, a, b []uint16) []uint16 {
+	out := make([]uint16, r*c)
+	for i := 0; i < r; i++ {
+		for x := 0; x < k; x++ {
+			f := a[i*k+x]
+			if f == 0 {
+				continue
+			}
+			lf := flog[f]
+			row := b[x*c : (x+1)*c]
+			o := out[i*c : (i+1)*c]
+			for j, v := range row {
+				if v != 0 {
+					o[j] ^= fexp[lf+flog[v]]
+				}
+			}
+		}
+	}
+	return out
+}
